@@ -3,6 +3,7 @@ package compaction
 import (
 	"bytes"
 	"fmt"
+	"sort"
 
 	"github.com/KevoDB/kevo/pkg/sstable"
 )
@@ -57,6 +58,30 @@ func (s *SSTableInfo) olderThan(other *SSTableInfo) bool {
 		return s.Timestamp < other.Timestamp
 	}
 	return s.Sequence < other.Sequence
+}
+
+// InputFilesOldestFirst returns the input files of the task ordered from the
+// oldest data to the newest: deeper levels first and, within a level, by
+// creation time. Inputs must be deleted in this order: the files that are left
+// when the process stops in the middle are then always the newest ones, which
+// rightly take precedence over the compaction output.
+func (t *CompactionTask) InputFilesOldestFirst() []*SSTableInfo {
+	levels := make([]int, 0, len(t.InputFiles))
+	for level := range t.InputFiles {
+		levels = append(levels, level)
+	}
+	sort.Sort(sort.Reverse(sort.IntSlice(levels)))
+
+	var ordered []*SSTableInfo
+	for _, level := range levels {
+		files := make([]*SSTableInfo, len(t.InputFiles[level]))
+		copy(files, t.InputFiles[level])
+		sort.SliceStable(files, func(i, j int) bool {
+			return files[i].olderThan(files[j])
+		})
+		ordered = append(ordered, files...)
+	}
+	return ordered
 }
 
 // KeyRange returns a string representation of the key range in this SSTable
